@@ -18,7 +18,7 @@ func init() {
 			"R2 walkInternal has exactly one case per node struct and pushes exactly its node-typed fields (by go/types, not by name heuristics) in reverse declaration order with the field's own name. " +
 			"R3 the emitter methods of tools/util/poslang name the helper whose contract R1 checked. " +
 			"Decides: the committed methods are the translation of the committed specifications. Does not decide: byte-for-byte generator output, agreement of the reflective interpreter at run time.",
-		Rules: []ruleFn{ruleC19R1, ruleC19Helpers, ruleC17R1, ruleC19R3},
+		Rules: []ruleFn{ruleC19R1, ruleC19Helpers, ruleC17R1, ruleC19R3, ruleC19R4},
 	})
 }
 
